@@ -828,7 +828,7 @@ func parseSPSSccExtension(r *bits.EBSPReader, ChromaFormatIDC,
 					break
 				}
 				ext.PalettePredictorInitializer[0] =
-					append(ext.PalettePredictorInitializer[0], r.Read(int(BitDepthLumaMinus8+8)))
+					append(ext.PalettePredictorInitializer[0], r.Read(int(BitDepthLumaMinus8)+8))
 			}
 			// Fill chroma if any
 			for comp := 1; comp < numComps; comp++ {
@@ -837,7 +837,7 @@ func parseSPSSccExtension(r *bits.EBSPReader, ChromaFormatIDC,
 						break
 					}
 					ext.PalettePredictorInitializer[comp] =
-						append(ext.PalettePredictorInitializer[comp], r.Read(int(BitDepthChromaMinus8+8)))
+						append(ext.PalettePredictorInitializer[comp], r.Read(int(BitDepthChromaMinus8)+8))
 				}
 			}
 		}
